@@ -4,16 +4,6 @@ import EduceModel.IR
 -/
 namespace Educe
 
-/-- `TypeName` of debug/models/type_attribute.rs. -/
-inductive NameCfg | disable | default | custom (n : Ident)
-  deriving Repr, Inhabited, DecidableEq
-
-def NameCfg.toIdent (c : NameCfg) (own : Ident) : Option Ident :=
-  match c with
-  | .disable => none
-  | .default => some own
-  | .custom n => some n
-
 structure DbgField where
   name : Ident := []               -- declared name ([] for tuple fields)
   ignore : Bool := false
